@@ -134,6 +134,18 @@ def gen_cases(rng, n):
     return exact_zero_cases() + cases
 
 
+def sbt_cases():
+    """SBTEconomics.Calculate has its own copies of the cash-flow assembly and of the payback scan (closed-loop SBT reservoir): one run whose
+    cumulative cash flow starts positive (grants exceed cost) and ends negative — never a turn from non-positive to positive, so N/A — and one
+    ordinary run.  (Slow reservoir model: two runs only.)"""
+    f = geo.EXAMPLES / 'example_SBT_Lo_T.txt'
+    if not f.exists():
+        return []
+    base = geo.example_text(f)
+    return [('sbt:grants-exceed-cost', base + '\nOne-time Grants Etc, 1000\nTotal O&M Cost, 50\nTotal Capital Cost, 100\n'),
+            ('sbt:example', base + '\nConstruction Years, 2\n')]
+
+
 def exact_zero_cases():
     """cash flows made of exactly representable amounts whose cumulative series is exactly 0.0 at a year end (… -10, 0, 10 …): the
     year-end zero is "not yet positive", the payback lies in the following year — a strict / non-strict comparison slip shows only here"""
@@ -332,7 +344,7 @@ def run(chk: core.Check) -> int:
     chk.trusted.append('tools/py2lean.py (Python subset -> Lean: assignments, list item assignment with Python index semantics, for-range loops, if; floats read as exact rationals)')
     clean = chk.prove(['GeoVerif.Properties.C04'])
     quick = chk.tier == 'quick'
-    evaluate(chk, gen_cases(chk.rng, 400 if quick else 4000))
+    evaluate(chk, gen_cases(chk.rng, 400 if quick else 4000) + (sbt_cases()[:1] if quick else sbt_cases()))
     if (not clean or chk.breaks) and not chk.failures:
         evaluate(chk, gen_cases(chk.rng, 1500))
     chk.assumptions += ['IRR is an observed value (numpy_financial root finder): the clause "non-zero IRR zeroes the NPV" is checked at 1e-6 of the sum of absolute discounted terms; for conventional cash flows (tagged) C04.irr_unique shows that rate is the only one above -100 %',
